@@ -116,3 +116,11 @@ IDEALISATIONS = [
     'dtype=object arrays erase dtype promotion/casting rules',
     'shapes beyond the stated bounds are outside the claim',
 ]
+
+
+def reraise_internal(e):
+    """exceptions of the engine / harness itself must not be mistaken for failures of the code under test"""
+    from symx.poly import SymUnsupported, SymDivisionByZero
+    from symx.runner import HarnessError
+    if isinstance(e, (SymUnsupported, HarnessError)) and not isinstance(e, SymDivisionByZero):
+        raise e
